@@ -208,12 +208,72 @@ pub fn run(args: &Args, rep: &mut Report) {
         }
     }
     zst_drop_counts(args, rep);
+    overaligned_elements(args, rep);
+}
+
+#[derive(Clone, Copy, PartialEq, Debug)]
+#[repr(align(64))]
+struct A64(u8);
+#[derive(Clone, Copy, PartialEq, Debug)]
+#[repr(align(32))]
+struct A32([u8; 40]);
+
+/// vectors of over-aligned elements: the buffer is aligned for the element after every growth step,
+/// whichever way the growth went (in place, moved inside the chunk, moved to a new chunk)
+fn overaligned_elements(args: &Args, rep: &mut Report) {
+    let mut rng = Rng::new(args.seed ^ 0xA64);
+    halloc::Env::from_seed(args.seed ^ 0x64, args.instrumented).apply(args.seed);
+    for case in 0..(if cfg!(miri) { 2 } else { 40 }) {
+        let b = match rng.below(3) {
+            0 => Bump::new(),
+            1 => Bump::with_capacity(rng.range(1, 500) as usize),
+            _ => {
+                let b = Bump::new();
+                b.alloc_slice_fill_copy(rng.range(1, 700) as usize, 3u8);
+                b
+            }
+        };
+        rep.ctx = format!("vecdiff over-aligned elements case {}", case);
+        let mut v64: BVec<A64> = BVec::new_in(&b);
+        let mut v32: BVec<A32> = BVec::with_capacity_in(rng.below(3), &b);
+        let n = if cfg!(miri) { 20 } else { rng.range(10, 400) as usize };
+        for i in 0..n {
+            match rng.below(4) {
+                0 => {
+                    b.alloc_slice_fill_copy(rng.range(1, 9) as usize, 1u8);
+                }
+                1 => v64.reserve(rng.below(5)),
+                2 => {
+                    let _ = v32.try_reserve(rng.below(5));
+                }
+                _ => {}
+            }
+            v64.push(A64(i as u8));
+            v32.push(A32([i as u8; 40]));
+            if rng.chance(1, 16) {
+                v64.shrink_to_fit();
+                v32.shrink_to_fit();
+            }
+            for (p, al, what) in [(v64.as_ptr() as usize, 64usize, "align(64)"), (v32.as_ptr() as usize, 32, "align(32)")] {
+                if p % al != 0 {
+                    rep.violate("C04", format!("C04/collections/vec<{}>/buffer-misaligned-for-its-element-type", what), format!("{:#x} after {} pushes", p, i + 1));
+                    rep.violate("C13", format!("C13/vec<{}>/push/buffer-misaligned-for-its-element-type", what), format!("{:#x} after {} pushes", p, i + 1));
+                    return;
+                }
+            }
+            rep.bump("c04.collection_buffers_checked");
+        }
+        if v64.iter().enumerate().any(|(i, x)| x.0 != i as u8) || v32.iter().enumerate().any(|(i, x)| x.0 != [i as u8; 40]) {
+            rep.violate("C13", "C13/vec<over-aligned>/push/contents-differ", String::new());
+        }
+        rep.evaluations += 1;
+    }
 }
 
 /// zero-sized elements with destructors: counted, not identified
 fn zst_drop_counts(args: &Args, rep: &mut Report) {
     let mut rng = Rng::new(args.seed ^ 0x257);
-    for _ in 0..(if cfg!(miri) { 3 } else { 60 }) {
+    for _ in 0..(if cfg!(miri) { 6 } else { 200 }) {
         ledger::zst_reset();
         ledger::reset();
         let b = Bump::new();
@@ -222,7 +282,7 @@ fn zst_drop_counts(args: &Args, rep: &mut Report) {
         for _ in 0..n {
             v.push(TrackedZst::new());
         }
-        let how = rng.below(7);
+        let how = rng.below(13);
         rep.ctx = format!("zst vec n={} how={}", n, how);
         let mut expect_leak = 0u64;
         match how {
@@ -250,14 +310,46 @@ fn zst_drop_counts(args: &Args, rep: &mut Report) {
                 expect_leak = n as u64;
                 let _ = v.into_bump_slice();
             }
-            _ => {
+            6 => {
                 let bx = v.into_boxed_slice();
                 drop(bx);
+            }
+            7 => {
+                let mut it = v.into_iter();
+                let _ = it.nth(rng.below(4));
+                let _ = it.nth(rng.below(4));
+                drop(it);
+            }
+            8 => {
+                let k = rng.below(5);
+                for x in v.into_iter().skip(k) {
+                    drop(x);
+                }
+            }
+            9 => {
+                let k = rng.range(1, 4) as usize;
+                let kept: Vec<TrackedZst> = v.into_iter().step_by(k).collect();
+                drop(kept);
+            }
+            10 => {
+                let mut it = v.into_iter();
+                let _ = it.nth_back(rng.below(4));
+                let _ = it.next();
+                drop(it);
+            }
+            11 => {
+                let k = rng.below(6);
+                let taken: Vec<TrackedZst> = v.into_iter().rev().skip(1).take(k).collect();
+                drop(taken);
+            }
+            _ => {
+                let it = v.into_iter();
+                let _ = if rng.chance(1, 2) { it.last().is_some() } else { it.count() > 0 };
             }
         }
         let (minted, dropped) = ledger::zst_counts();
         if minted - dropped != expect_leak {
-            rep.violate("C15", format!("C15/zst-vec/{}/drop-count-wrong", ["drop", "into_iter-partial", "into_iter-for", "truncate+clear", "drain", "into_bump_slice", "into_boxed_slice"][how]), format!("minted {} dropped {} expected leak {}", minted, dropped, expect_leak));
+            rep.violate("C15", format!("C15/zst-vec/{}/drop-count-wrong", ["drop", "into_iter-partial", "into_iter-for", "truncate+clear", "drain", "into_bump_slice", "into_boxed_slice", "into_iter-nth", "into_iter-skip", "into_iter-step_by", "into_iter-nth_back", "into_iter-rev-skip-take", "into_iter-last-or-count"][how]), format!("minted {} dropped {} expected leak {}", minted, dropped, expect_leak));
         }
         rep.bump("c15.zst_cases");
         rep.evaluations += 1;
